@@ -58,7 +58,11 @@ def class_body(src, cname, rel):
     return src[m.end():j - 1]
 
 
-def find_function(src, qualname, want_types, rel):
+def find_function(src, qualname, want_types, rel, cls=None):
+    if cls:
+        # in-class lookup requested by a spec of another property: the unwrapped function handles it
+        return _orig_find_function(src, qualname, want_types, rel, cls)
+
     def attempt(text, name):
         try:
             return _orig_find_function(text, name, want_types, rel)
